@@ -38,6 +38,7 @@
       extra premise "statistics are written or a channel was written" (counterexample a).
    3. The parts as separate theorems: C02_e2e_info, C02_e2e_dispatch, C02_e2e_file_order,
       C02_e2e_time_orders, C02_e2e_random_access, C02_e2e_callbacks. *)
+From Mcap Require ConstsTie LayoutTie DecisionTieR. (* regenerated ties to /repo's source that this property's model relies on *)
 From Coq Require Import List NArith ZArith Bool Permutation.
 From Coq.Strings Require Import Byte.
 From Mcap Require Import Bytes GoSem Crc32 Records RecordsFacts Writer WriterFactsC Lexer LexSpec LexerFactsB
